@@ -96,10 +96,11 @@ func walkLevels(s *skiplist.Skiplist, showMarked bool) string {
 	return fmt.Sprintf("lvl=%d %s", lvl, strings.Join(parts, ";"))
 }
 
-func statsLine(s *skiplist.Skiplist) string {
+func statsLine(s *skiplist.Skiplist, quiescent bool) string {
 	dist, soft, allocs, frees, used := s.VerifRawStats()
-	// memory in use must equal what a walk of level 0 measures (checked here, not modelled: a mismatch is
-	// appended to the line, which then never matches the model)
+	// memory in use must equal what a walk of level 0 measures (checked here at quiescence, not modelled: a mismatch
+	// is appended to the line, which then never matches the model; while a call is in flight its node can be
+	// linked and not yet counted)
 	var walked int64
 	if n, _ := skiplist.VerifNext(s.HeadNode(), 0); n != nil {
 		for cnt := 0; n != nil && n != s.TailNode() && cnt < 10000000; cnt++ {
@@ -111,7 +112,7 @@ func statsLine(s *skiplist.Skiplist) string {
 		}
 	}
 	memSuffix := ""
-	if used != walked {
+	if quiescent && used != walked {
 		memSuffix = fmt.Sprintf(" mem=%d/walk=%d", used, walked)
 	}
 	last := -1
@@ -194,7 +195,7 @@ func (e *skipSeqEngine) step(toks []string) string {
 	case "walk":
 		return walkLevels(e.s, true)
 	case "stats":
-		return statsLine(e.s)
+		return statsLine(e.s, true)
 	case "iter":
 		it := e.s.NewIterator(skiplist.CompareInt, e.buf)
 		defer it.Close()
